@@ -6,6 +6,7 @@ import (
 	"crypto/elliptic"
 	"crypto/sha256"
 	"crypto/sha512"
+	"encoding/asn1"
 	"fmt"
 	"math/big"
 	"math/rand"
@@ -63,7 +64,7 @@ func execSig(op string, a []string) string {
 			return "new:err"
 		}
 		applyOpsAfter(k, after)
-		sig, err := s.Sign(unhx(a[0]))
+		sig, err := s.Sign(unhxOpt(a[0])) // `~`: the empty message given as a nil slice
 		if err != nil {
 			return "new:ok sign:err"
 		}
@@ -105,7 +106,12 @@ func execSig(op string, a []string) string {
 			return "new:err"
 		}
 		applyOpsAfter(k, after)
-		if v.Verify(unhx(a[0]), unhx(a[1])) != nil {
+		sl := newSlack(unhxOpt(a[0]), unhx(a[1]))
+		verr := v.Verify(sl.views[0], sl.views[1])
+		if !sl.intact() {
+			return "ARGUMENT-WRITTEN"
+		}
+		if verr != nil {
 			return "new:ok verify:err"
 		}
 		return "new:ok verify:ok"
@@ -192,6 +198,16 @@ func genSigOps(r *rand.Rand, n int) []string {
 		if i%9 == 4 { // sizes at which a buffered / pre-hashed implementation would change gear
 			data = randBytes(r, []int{4096, 4097, 8191, 8192, 8193, 16384, 16385, 32768}[r.Intn(8)])
 		}
+		dataTok := func(d []byte) string { return hx(d) }
+		if i%11 == 5 { // the empty message, handed over as a nil slice (RFC 8032 test 1; an empty bytes.Buffer)
+			data = []byte{}
+			dataTok = func(d []byte) string {
+				if len(d) == 0 {
+					return "~"
+				}
+				return hx(d)
+			}
+		}
 		after := "same"
 		switch r.Intn(6) {
 		case 0:
@@ -208,16 +224,21 @@ func genSigOps(r *rand.Rand, n int) []string {
 				k2 := genEdKey(r)
 				toks = (&edKey{seed: k.seed, pub: k2.pub}).tokens(r, 1, extras)
 			}
+			if i%13 == 6 { // a valid x next to a d member that is present but no usable seed (empty, null, a number, text, short)
+				badD := []string{"b:-", "nil", "int:1", "t:73656564", "bnil", "b:" + hx(k.seed[:31]), "bs:-", "[ int:1 ]"}[r.Intn(8)]
+				toks = fmt.Sprintf("{ int:1 int:1 int:-1 %s int:-2 b:%s int:-4 %s }", intToken(r, 6), hx(k.pub), badD)
+				form = 1
+			}
 			sig := goed25519.Sign(goed25519.NewKeyFromSeed(k.seed), data)
 			out = append(out, "sig.topublic ed25519 "+toks, "sig.verifierkey "+toks)
 			if form <= 1 {
-				out = append(out, fmt.Sprintf("sig.sign %s %s | %s", hx(data), toks, after))
+				out = append(out, fmt.Sprintf("sig.sign %s %s | %s", dataTok(data), toks, after))
 			}
 			d2 := data
-			if r.Intn(8) == 0 {
+			if r.Intn(8) == 0 && len(data) > 0 {
 				d2 = flipBit(r, data)
 			}
-			out = append(out, fmt.Sprintf("sig.verify %s %s %s | %s", hx(d2), hx(mutateSig(r, sig)), toks, after))
+			out = append(out, fmt.Sprintf("sig.verify %s %s %s | %s", dataTok(d2), hx(mutateSig(r, sig)), toks, after))
 			if i%3 == 0 { // two different keys under one kid, used one after the other: each acts for itself
 				kid := []string{"int:2", "b:" + hx(randBytes(r, 1+r.Intn(4)))}
 				ka, kb := genEdKey(r), genEdKey(r)
@@ -284,13 +305,17 @@ func genSigOps(r *rand.Rand, n int) []string {
 		sig := append(rr.FillBytes(make([]byte, sz)), ss.FillBytes(make([]byte, sz))...)
 		out = append(out, "sig.topublic ecdsa "+toks, "sig.compress "+toks, "sig.verifierkey "+toks)
 		if form <= 1 || form == 4 {
-			out = append(out, fmt.Sprintf("sig.sign %s %s | %s", hx(data), toks, after))
+			out = append(out, fmt.Sprintf("sig.sign %s %s | %s", dataTok(data), toks, after))
 		}
 		d2 := data
-		if r.Intn(8) == 0 {
+		if r.Intn(8) == 0 && len(data) > 0 {
 			d2 = flipBit(r, data)
 		}
-		out = append(out, fmt.Sprintf("sig.verify %s %s %s | %s", hx(d2), hx(mutateSig(r, sig)), toks, after))
+		out = append(out, fmt.Sprintf("sig.verify %s %s %s | %s", dataTok(d2), hx(mutateSig(r, sig)), toks, after))
+		if i%7 == 3 { // the same (r, s) in ASN.1 DER, the encoding most other APIs use: COSE takes r || s only
+			der, _ := asn1.Marshal(struct{ R, S *big.Int }{rr, ss})
+			out = append(out, fmt.Sprintf("sig.verify %s %s %s | %s", dataTok(data), hx(der), toks, after))
+		}
 		if i%5 == 0 { // the same scalar octets as private key on two curves, one after the other: each gets its own d·G
 			d := new(big.Int).SetBytes(randBytes(r, 31))
 			d.Add(d, big.NewInt(1))
